@@ -107,6 +107,15 @@ Theorem C09_source_shape :
 Proof. exact source_shape. Qed.
 Print Assumptions C09_source_shape.
 
+(* the three Reserve calls of a block client (the third only with lazily expanded postings) *)
+Theorem C09_store_source_shape :
+  blockClientReservations =
+    ["blockSeriesClient.ExpandPostings: seriesLimiter.Reserve(uint64(len(b.lazyPostings.postings)))";
+     "blockSeriesClient.nextBatch: b.chunksLimiter.Reserve(uint64(len(b.chkMetas)))";
+     "blockSeriesClient.nextBatch: b.seriesLimiter.Reserve(uint64(seriesMatched))"]%string.
+Proof. exact store_source_shape. Qed.
+Print Assumptions C09_store_source_shape.
+
 (* Non-vacuity: limit 5; the third call crosses it and later calls keep failing; a stream
    of 2 series (3 chunks) against limits 2 series / 360 samples passes, against 359 fails
    after forwarding the first response. *)
